@@ -39,7 +39,7 @@ FUNCS = ["asum", "axpy", "copy", "dot", "dotu", "nrm2", "iamax", "scal", "swap",
          "gemm", "symm", "hemm", "syrk", "herk", "syr2k", "her2k", "trmm", "trsm"]
 REQUIRED_COUNTERS = (["accept." + f for f in FUNCS] + ["reject." + f for f in FUNCS] +
                      ["stratum.1", "stratum.2", "stratum.3", "stratum.4", "omitted-dim", "negative-inc", "zero-dim",
-                      "tc.d", "tc.z", "same-matrix-operands.swap"])
+                      "tc.d", "tc.z", "same-matrix-operands.swap", "same-matrix-operands.syr2k"])
 
 # |got - ref| <= TOLF * 8 (K+2) u * (|alpha||A||x| + |beta||y|)   (DESIGN.md Appendix C).  The evidence prints
 # max_observed["ratio.*"] = error / (8 (K+2) u scale) over all passing calls; on the unchanged tree it stays
@@ -280,10 +280,57 @@ def run(ctx):
                   "%s(A, A, %r): result differs from the reference on the addressed elements or elsewhere" % (fn, ix), got=got, want=want)
         c.cls("same-matrix", fn, mode, tc)
 
+    def same_matrix_rank2k_case(c, rng):
+        """syr2k / her2k with A and B addressed inside ONE matrix object at the same offset but with different leading
+        dimensions (A = leading columns of a workspace, B = every second column)"""
+        from cvxopt import matrix
+        tc = rng.choice("dz")
+        fn = "syr2k" if tc == "d" or rng.random() < 0.5 else "her2k"
+        n, k = rng.randint(1, 4), rng.randint(2, 3)
+        ldw = n + rng.randint(0, 2)
+        ncol = 2 * k
+        mk = (lambda: complex(rng.uniform(-2, 2), rng.uniform(-2, 2))) if tc == "z" else (lambda: rng.uniform(-2, 2))
+        wv = [mk() for _ in range(ldw * ncol)]
+        W = matrix(wv, (ldw, ncol), tc)
+        Wn = np.array(wv, dtype=DT[tc]).reshape((ldw, ncol), order="F")
+        A = Wn[:n, :k]
+        B = Wn[:n, 0:2 * k:2]
+        cv = [mk() for _ in range(n * n)]
+        C = matrix(cv, (n, n), tc)
+        Cn = np.array(cv, dtype=DT[tc]).reshape((n, n), order="F")
+        uplo = rng.choice("LU")
+        alpha = mk() if (tc == "z" and fn == "syr2k") else (mk() if tc == "z" else rng.uniform(-2, 2))
+        beta = rng.uniform(-2, 2)
+        if fn == "syr2k":
+            full = alpha * (A @ B.T + B @ A.T) + beta * Cn
+        else:
+            full = alpha * (A @ B.conj().T) + np.conj(alpha) * (B @ A.conj().T) + beta * Cn
+        want = Cn.copy()
+        for i in range(n):
+            for j in range(n):
+                if (uplo == "L" and i >= j) or (uplo == "U" and i <= j):
+                    want[i, j] = full[i, j]
+        c.desc.update({"fn": fn, "class": "same-matrix-operands-different-ld", "tc": tc, "n": n, "k": k, "ldW": ldw, "uplo": uplo})
+        ctx.count("same-matrix-operands." + fn)
+        c.check()
+        try:
+            getattr(blas, fn)(W, W, C, uplo=uplo, trans="N", alpha=alpha, beta=beta, n=n, k=k, ldA=ldw, ldB=2 * ldw)
+        except (TypeError, ValueError) as e:
+            c.fail("%s:same-matrix-different-ld-rejected" % fn, "%s(W, W, C, ldA=%d, ldB=%d) rejected: %s" % (fn, ldw, 2 * ldw, e)); return
+        got = np.array(list(C), dtype=DT[tc]).reshape((n, n), order="F")
+        if fn == "her2k":
+            for i in range(n):       # imaginary parts of the diagonal: zero or unchanged
+                got[i, i] = complex(got[i, i].real, want[i, i].imag); want[i, i] = complex(want[i, i].real, want[i, i].imag)
+        tol = 1e-12 * (1 + float(np.max(np.abs(want), initial=0)) + float(np.max(np.abs(Wn))) ** 2 * k * 4)
+        c.require(bool(np.all(np.abs(got - want) <= tol)), "%s:same-matrix-different-ld-result" % fn,
+                  "%s(W, W, C, ldA=%d, ldB=%d): wrong rank-2k update (B read with A's leading dimension?)" % (fn, ldw, 2 * ldw), got=got, want=want)
+        c.require(np.array_equal(np.array(list(W), dtype=DT[tc]), np.array(wv, dtype=DT[tc])), "%s:same-matrix-input-modified" % fn, "W changed")
+        c.cls("same-matrix-2k", fn, tc, uplo)
+
     def one(c):
         rng = c.rng
         if rng.random() < 0.01:
-            return same_matrix_case(c, rng)
+            return same_matrix_case(c, rng) if rng.random() < 0.6 else same_matrix_rank2k_case(c, rng)
         fn = FUNCS[(c.k + ctx.worker * 7) % len(FUNCS)] if rng.random() < 0.8 else rng.choice(FUNCS)
         stratum = rng.choice(WEIGHTS)
         call = B.gen_call(rng, fn, stratum)
